@@ -157,8 +157,7 @@ class IdentityCommunity(Community):
             self.logger.debug("Not signing %s, metadata does not match!", str(metadata))
             return False
         for attestation in pseudonym.database.get_attestations_over(metadata):
-            if any(authority == self.my_peer.public_key.key_to_bin()
-                   for authority in pseudonym.database.get_authority(attestation)):
+            if pseudonym.database.get_authority(attestation) == self.my_peer.public_key.key_to_bin():
                 self.logger.debug("Not signing %s, already attested!", str(metadata))
                 return False
         return True
